@@ -181,6 +181,17 @@ fn choose_holes(n: &N, rng: &mut Rng, ids: &Ids, allow_run: bool) -> Vec<Hole> {
   holes
 }
 
+/// a dumped pattern with the text of every terminal blanked: `["T", text, named, kind]`
+fn strip_text(v: &Value) -> Value {
+  match v {
+    Value::Array(a) if a.first().and_then(|t| t.as_str()) == Some("T") && a.len() == 4 => {
+      json!(["T", "", a[2], a[3]])
+    }
+    Value::Array(a) => Value::Array(a.iter().map(strip_text).collect()),
+    other => other.clone(),
+  }
+}
+
 pub fn cut_unit(ctx: &Ctx, rng: &mut Rng, o: &mut Out) {
   let sources = corpus::load();
   let per_src = if ctx.thorough { 600 } else { 150 };
@@ -208,7 +219,10 @@ pub fn cut_unit(ctx: &Ctx, rng: &mut Rng, o: &mut Out) {
       let Ok(pat) = Pattern::try_new(&text, src.lang) else { continue };
       let real = treedump::dump_pattern(&pat.node);
       let want = cut(n, &holes, &src.text, &ids);
-      if real != want {
+      // the property's guard is about SHAPE (kinds, structure, holes): the token texts of the
+      // converted pattern are part of what is checked, not of the guard — a converter that garbles
+      // them (e.g. re-encodes non-ASCII text) must reach the oracle below
+      if strip_text(&real) != strip_text(&want) {
         continue; // the holed text does not parse to the same shape: outside the property
       }
       guard_pass += 1;
